@@ -223,9 +223,11 @@ def run(ctx):
         "events_validated": summary["events"],
         "conductor_divergences": summary["diverged"],
         "observer": tstats,
-        "violations_per_clause": per_clause,
+        "clause_hits_including_known_findings": per_clause,
         "clauses": CLAUSES,
-        "explanation": "states/transitions are TLC's numbers for the exhaustive runs of spec/BrokerConn.tla in this run (safety, "
+        "explanation": "exhaustive: TLC's runs on the bounded model are complete and every conductor-reproducible behaviour of the "
+                       "generation configurations is replayed; the simulated behaviours (source sim) are an additional seeded sample. "
+                       "states/transitions are TLC's numbers for the exhaustive runs of spec/BrokerConn.tla in this run (safety, "
                        "liveness, bound, exhaustive behaviour generation); every emitted behaviour (after merging behaviours "
                        "that differ only in caller names / order of simultaneous observations) is executed once on a real "
                        "Broker over loopback TCP and the recorded events are evaluated by TLC (spec/BrokerConnTrace.tla)",
